@@ -1,5 +1,5 @@
 (* Inversion lemmas for the outcome monad and list helpers used by all proofs about Model/Gen.v. *)
-From TsRs Require Import Base.Str Base.Outcome Model.Gen.
+From TsRs Require Import Base.Str Base.Outcome Model.TsAst Model.Rust Model.Gen.
 From Coq Require Import List Lia.
 Import ListNotations.
 
@@ -69,3 +69,32 @@ Qed.
 
 Lemma filter_incl_in {A} (p : A -> bool) l x : In x (filter p l) -> In x l.
 Proof. intros H; apply filter_In in H; tauto. Qed.
+
+(* ---- the lazily read shape of a variant with `type` / `as` ------------------------------------- *)
+Definition is_some {A} (o : option A) : bool := match o with Some _ => true | None => false end.
+
+Lemma shape_gen_flat is_alnum is_numeric R inl flt args ra opt tag s r :
+  shape_gen is_alnum is_numeric R inl flt args ra opt tag s = Ok r -> is_some (snd r) = has_flat_form tag s.
+Proof.
+  destruct s as [|fs|fs]; cbn [shape_gen has_flat_form].
+  - intros H; inversion H; reflexivity.
+  - destruct fs as [|f [|g fs']].
+    + intros H; inversion H; reflexivity.
+    + destruct (f_skip f); [intros H; inversion H; reflexivity|]. intros H. apply bind_ok in H as (x & _ & H). inversion H; reflexivity.
+    + intros H. apply bind_ok in H as (x & _ & H). inversion H; reflexivity.
+  - destruct fs as [|f fs'].
+    + destruct tag as [[t n]|]; [|intros H; inversion H; reflexivity].
+      intros H. apply bind_ok in H as (ps & _ & H). apply bind_ok in H as (fl & _ & H).
+      destruct fl as [|x [|y l]]; inversion H; reflexivity.
+    + intros H. apply bind_ok in H as (ps & _ & H). apply bind_ok in H as (fl & _ & H).
+      destruct tag as [[t n]|]; destruct ps; destruct fl as [|x [|y l]]; inversion H; reflexivity.
+Qed.
+
+Lemma variant_shape_cases (sg : outcome derived) (va : option rty) (vty : option str) b vt :
+  match va, vty with None, None => sg | _, _ => shape_lazy sg b end = Ok vt ->
+  sg = Ok vt \/ ((va <> None \/ vty <> None) /\ fst vt = prim "never"%string /\ is_some (snd vt) = b).
+Proof.
+  destruct va as [u|]; [|destruct vty as [tx|]]; try (intros H; left; exact H);
+    (destruct sg as [r|m|m]; cbn [shape_lazy]; intros H; [left; exact H | discriminate |
+       right; inversion H; subst; cbn [fst snd]; split; [(left; discriminate) || (right; discriminate) | split; [reflexivity | destruct b; reflexivity]]]).
+Qed.
